@@ -853,3 +853,4 @@ M('seed14-C12-port-pattern-misses-unusual-credentials', ['C12'], CLI, 'RE_URL_PO
 M('d100-portless-tcp-metrics-output-not-reserved', ['C12'], CLI, '            if outputs_metrics.startswith("tcp://"):  # (the protocol\'s default port when none is written, like any tcp output)\n                max_port = max(max_port, int((only_mq_addr(outputs_metrics[6:]).rsplit(":", 1) + [5550])[:2][1]))\n            elif outputs_metrics.startswith("ipc://"):', '            if outputs_metrics.startswith("ipc://"):', ['C12.R13'])
 M('d100-ipc-metrics-output-not-counted', ['C12'], CLI, '                ipc_outputs.add(only_mq_addr(outputs_metrics))\n', '                pass\n', ['C12.R13'])
 M('d101-exit-exception-logged-away-with-loop-exc-off', ['C08'], F, "                                    if (exit_exc := getattr(filter, 'exit_exc', None)) is not None and (exc is exit_exc or type(exc) is exit_exc):  # raised by exit(reason, exc): a deliberate error exit, also with LOOP_EXC off\n                                        raise\n\n", "", ['C08.R14'])
+M('seed15-C10-jpg-carried-to-the-writable-copy', ['C10'], FR, "        return Frame(self.image.copy(), self, self.__shapef[1])\n", "        new = Frame(self.image.copy(), self, self.__shapef[1])\n        new.__jpg = self.__jpg\n\n        return new\n", ['C10.R1'])
